@@ -211,6 +211,14 @@ class SFTPFile(BufferedFile):
                 # convert_status already called
         return chunk
 
+    def write(self, data):
+        # a write must land at the user-visible position, not behind the
+        # read-ahead: drop the read buffer and resynchronize first.
+        if self._rbuffer:
+            self._realpos = self._pos
+            self._rbuffer = bytes()
+        BufferedFile.write(self, data)
+
     def read(self, size=None):
         # like Python files: buffered writes reach the server before reading
         if self._wbuffer.tell():
